@@ -87,6 +87,10 @@ def run(ctx):
     # ------------------------------------------------------------------ R16.9 (generic, scoped to this property's anchors)
     sm.rule_named_plumbing(ctx, mir, "C16", "R16.9", floor=70)
 
+    # ------------------------------------------------------------------ R16.10 (= R17.12)
+    from .c17 import rule_namespace_uris
+    rule_namespace_uris(ctx, rid="R16.10")
+
     ctx.not_decided += ["exact range arithmetic of finish_attr_value (closing-quote offsets) at run time", "decoding of values (encoding_rs)"]
     return ("Typestate of the attribute-building actions over every path of the %d-state automaton, the lookup/edit discipline of Attributes, "
             "the getter-to-decoder mapping, where the reported namespace is read relative to tree-builder feedback, and a lint for byte-wise "
@@ -155,6 +159,14 @@ def rule_attr_lookup(ctx, mir, rid="R16.2"):
     # ------------------------------------------------------------------ R16.2
     r = ctx.rule(rid, "lookups: get/has/set/remove_attribute lower-case the queried name (ASCII) before encoding it, compare case-insensitively, return the first match; removal removes every duplicate; edits are visible to later reads", "E-MIR", floor=6)
     sm.clause_eq_case_insensitive(r, mir)
+    # readers return the first duplicate, so the editor must update the first one too: forward searches only
+    for nm in ("Attributes::map_attribute", "Attributes::set_attribute"):
+        f = mir.fn(nm)
+        fwd = [callee_key(t) for bi, t in f.calls(r"(Iter|IterMut)::(find|find_map|position)\[Iterator\]$")]
+        back = [callee_key(t) for bi, t in f.calls(r"rfind|rposition|next_back|::rev(\[|$)|::last(\[|$)|rfold|rev_")]
+        r.inst(nm + "|first-duplicate", sample={"forward_searches": fwd, "backward_searches": back})
+        if len(fwd) != 1 or back:
+            r.violate(nm + "|first-duplicate", f"{nm} locates the attribute with {fwd + back}: with duplicate names the attribute that get_attribute()/attributes() report first (and that HTML parsers use) must be the one found (exactly one forward find)", f.loc())
     for nm in ("Attributes::map_attribute", "Attributes::set_attribute", "Attributes::remove_attribute"):
         f = mir.fn(nm)
         low = [bi for bi, t in f.calls(r"to_ascii_lowercase$")]
